@@ -41,7 +41,10 @@ RULE_ADDED = (
               'cp256k1 key. '
               ' '
               'Round 10: one chain in six holds a certificate valid from 1950 to 9999-12-31T23:'
-              '59:59Z; zero-edged digests in the commitments. ')
+              '59:59Z; zero-edged digests in the commitments. '
+              ' '
+              'Round 11: attestation-key message extended without re-signing; certificate with '
+              'a signature algorithm identifier unknown to the library. ')
 RULE = RULE + " " + RULE_ADDED.strip()
 ASSUMPTIONS = [
     "oracle: pv/oracle/certv2.py; X.509 parsing itself is shared (cryptography), signature "
